@@ -644,7 +644,7 @@ pub fn hash_script_data(
 pub fn internal_get_implicit_input(
     withdrawals: &Option<Withdrawals>,
     certs: &Option<Certificates>,
-    pool_deposit: &BigNum, // // protocol parameter
+    _pool_deposit: &BigNum, // // protocol parameter (pool retirement refunds are not paid inside the transaction)
     key_deposit: &BigNum,  // protocol parameter
 ) -> Result<Value, JsError> {
     let withdrawal_sum = match &withdrawals {
@@ -669,7 +669,6 @@ pub fn internal_get_implicit_input(
                         acc.checked_add(&key_deposit)
                     }
                 }
-                CertificateEnum::PoolRetirement(_) => acc.checked_add(&pool_deposit),
                 CertificateEnum::DRepDeregistration(cert) => acc.checked_add(&cert.coin),
                 _ => Ok(acc),
             })?,
